@@ -552,6 +552,9 @@ func (r *realCase) state() string {
 	return fmt.Sprintf("R stop=%s opens=%d closes=%d", st, o, c)
 }
 
+// the watchdog for Stop/Shutdown on real engines: generous, a hang costs this much once per case
+const watchdog = 20 * time.Second
+
 func runReal(e *lp.Exec, head string, ops []string) {
 	ws := strings.Fields(head)
 	r := &realCase{e: e, kind: field(ws, "kind")}
@@ -810,15 +813,15 @@ func runReal(e *lp.Exec, head string, ops []string) {
 						}
 					}
 				}
-			case <-time.After(10 * time.Second):
+			case <-time.After(watchdog):
 				buf := make([]byte, 1<<16)
 				buf = buf[:runtime.Stack(buf, true)]
-				e.Oracle("c18-hang", "class=unexplained %s did not return within 10s; %s; stacks: %s", ow[1], r.state(), strings.ReplaceAll(string(buf[:min(len(buf), 6000)]), "\n", " ; "))
+				e.Oracle("c18-hang", "class=unexplained %s did not return within %v; %s; stacks: %s", ow[1], watchdog, r.state(), strings.ReplaceAll(string(buf[:min(len(buf), 6000)]), "\n", " ; "))
 			}
 			shape += "|" + ow[1]
 			if r.kind == "http" {
 				// the server side is closed: every client must see it
-				waitFor(func() bool { return int(atomic.LoadInt32(&r.peerEOF)) >= len(r.clients) }, 3*time.Second)
+				waitFor(func() bool { return int(atomic.LoadInt32(&r.peerEOF)) >= len(r.clients) }, 8*time.Second)
 			}
 		}
 		e.P("> %s%s", ln, ann)
@@ -835,7 +838,7 @@ func runReal(e *lp.Exec, head string, ops []string) {
 				e.Oracle("c18-close-count", "core engine: at the moment Stop returned opens+dials=%d, close notifications delivered=%d", r.opensAtRet, r.closesAtRet)
 			}
 		} else if int(atomic.LoadInt32(&r.peerEOF)) < len(r.clients) {
-			e.Oracle("c18-close-count", "http engine (iomod=%s): %d of %d client connections still open 3s after Stop returned", iomod, len(r.clients)-int(atomic.LoadInt32(&r.peerEOF)), len(r.clients))
+			e.Oracle("c18-close-count", "http engine (iomod=%s): %d of %d client connections still open 8s after Stop returned", iomod, len(r.clients)-int(atomic.LoadInt32(&r.peerEOF)), len(r.clients))
 		}
 	}
 	// release the harness's own resources, then take the census
